@@ -976,6 +976,12 @@ def wl_tangent(run, rng, idx):
     P, Q = rh.klein_to_proj(kp), rh.klein_to_proj(kq)
     lam = rng.choice([-1.0, 1.0], size=tuple(shape) + (1,)) * rng.uniform(0.2, 5, size=tuple(shape) + (1,))
     route = ["towards", "explicit-vector", "base-tangent-moved"][idx % 3]
+    if route == "explicit-vector" and (idx // 3) % 2:
+        # the vector as the user has it: a chord or any ambient vector, which the
+        # constructor projects to the tangent space (seeded change C02-r6-1: the
+        # frame of origin_to taken from the vector as supplied while find_isometry
+        # stopped orthogonalising)
+        route = "explicit-nontangent-vector"
     case = {"dimension": n, "shape": list(shape), "radius_class": rad, "force_oriented": fo,
             "route": route, "P": P, "Q": Q}
     run.current_case = case
@@ -988,6 +994,11 @@ def wl_tangent(run, rng, idx):
         w = rng.normal(size=P.shape)
         tv = TangentVector(Point((P * lam).copy()), rh.tangent_project(P * lam, w) * 3.0)
         tw = TangentVector(Point(Q.copy()), rh.tangent_project(Q, rng.normal(size=Q.shape)))
+    elif route == "explicit-nontangent-vector":
+        w = rng.normal(size=P.shape)
+        w2 = Q - P                                            # a chord
+        tv = TangentVector(Point((P * lam).copy()), (w * 3.0 * lam).copy())
+        tw = TangentVector(Point(Q.copy()), w2.copy())
     else:
         base = TangentVector.get_base_tangent(n)   # (shape argument is broken in the library: not C02's matter)
         tv = Point(P.copy()).origin_to() @ base               # internal apply on a tangent vector
